@@ -43,6 +43,8 @@ type streamsCase struct {
 	Cfg     simCfg    `json:"cfg"`
 	Streams []sStream `json:"streams"`
 	Sched   schedPlan `json:"sched"`
+	// SessEnd: after every program has finished (or is parked for good), end the session from the client (1) or the server (2) side
+	SessEnd int `json:"sess_end,omitempty"`
 }
 
 // ---- recorded history ----
@@ -81,6 +83,7 @@ type streamsHist struct {
 	obs     *schedObs
 	ids     []uint32
 	hogging bool
+	sessEnded bool
 }
 
 type cbAdapter struct {
@@ -336,6 +339,33 @@ func runStreamsObs(c streamsCase, r *runCtx, setup func(h *streamsHist)) *stream
 				h.ends[i][e].progDone[1] = true
 			}
 		}
+	}
+	if c.SessEnd != 0 {
+		sc.Spawn("sessend", func() {
+			allDone := func() bool {
+				for i := range h.ends {
+					for e := 0; e < 2; e++ {
+						if !h.ends[i][e].progDone[0] || !h.ends[i][e].progDone[1] {
+							return false
+						}
+					}
+				}
+				return true
+			}
+			// strictly after the programs: a session torn down under an active call is known finding close-races-active-user (C14)
+			for round := 0; round < 12; round++ {
+				vsched.BlockUntilQuiet()
+				if allDone() {
+					break
+				}
+			}
+			h.sessEnded = true
+			if c.SessEnd == 1 {
+				w.client.Close()
+			} else {
+				w.server.Close()
+			}
+		})
 	}
 	if setup != nil {
 		setup(h)
